@@ -33,7 +33,7 @@ func VerifC06_attester_authentic() {
 	client := NewRateLimitedClientFromSecret(secret)
 	blind := vBytes("blind", 48, 48)
 	vAssume(blind[0] != 0)
-	st, err := client.CreateTokenRequest(vBytesC("challenge", 0, 1), vBytes("nonce", 32, 32), blind, issuer.TokenKeyID(), issuer.TokenKey(), "a", issuer.NameKey())
+	st, err := client.CreateTokenRequest(vBytesC("challenge", 0, vBound("C06_challenge", 1, 33)), vBytes("nonce", 32, 32), blind, issuer.TokenKeyID(), issuer.TokenKey(), "a", issuer.NameKey())
 	vAssume(err == nil)
 	if vBool("marshalled_before") {
 		// the request object may already carry a cached encoding when its fields are changed
